@@ -31,6 +31,23 @@ var preludeFuns = map[string]struct {
 // call lowers a call expression and returns its results.
 func (l *Lowerer) call(ce *ast.CallExpr) ([]*Term, []types.Type) {
 	fun := ast.Unparen(ce.Fun)
+	if l.chanLenTracked && !l.spec {
+		pure := false
+		if id, ok := fun.(*ast.Ident); ok {
+			switch id.Name {
+			case "len", "cap", "append", "make", "new", "copy", "delete", "panic", "print", "println", "min", "max":
+				if _, isBuiltin := l.fr.fi.Pkg.TypesInfo.Uses[id].(*types.Builtin); isBuiltin {
+					pure = true
+				}
+			}
+		}
+		if tv, ok := l.fr.fi.Pkg.TypesInfo.Types[ce.Fun]; ok && tv.IsType() {
+			pure = true
+		}
+		if !pure {
+			defer l.havocChanLen()
+		}
+	}
 	// --- spec-only forms
 	if id, ok := fun.(*ast.Ident); ok {
 		switch id.Name {
@@ -657,6 +674,16 @@ func (l *Lowerer) builtin(name string, ce *ast.CallExpr) ([]*Term, []types.Type)
 			}
 			return []*Term{r}, []types.Type{tInt}
 		case *types.Chan:
+			if l.chanLenTracked {
+				// A-chanlen: the length of a channel does not change between two reads that no call and no channel
+				// operation of this function separates (the pseudo field is havocked at every call, send, receive,
+				// select and close)
+				cl := l.heapVar("F.$chan.len", "Int")
+				t := Select(cl, v)
+				l.assume(Le(IntLit(0), t))
+				l.note("A-chanlen: len(ch) is stable between two reads that no call or channel operation separates")
+				return []*Term{t}, []types.Type{tInt}
+			}
 			l.p.reg.Fun("chanlen", []string{"Int", "Int"}, "Int")
 			t := l.freshVal(tInt)
 			l.assume(Le(IntLit(0), t))
@@ -1267,6 +1294,17 @@ func (l *Lowerer) bumpAlloc() {
 	l.assign(t, "Int", V("$alloc", "Int"))
 	l.havoc("$alloc", "Int")
 	l.assume(Le(V(t, "Int"), V("$alloc", "Int")))
+}
+
+// havocChanLen: any call or channel operation may change the length of any channel.
+func (l *Lowerer) havocChanLen() {
+	if !l.chanLenTracked || l.cur == nil {
+		return
+	}
+	s := arraySort("Int", "Int")
+	l.f.declare("F.$chan.len", s)
+	l.f.HeapVars["F.$chan.len"] = true
+	l.emit(&Stmt{Kind: SHavoc, Var: "F.$chan.len", Sort: s, Note: "chanlen"})
 }
 
 func (l *Lowerer) havocEscaped() {
